@@ -17,6 +17,7 @@ CLAIMS = {  # type -> (file, constructor form, registered key)
 
 def job_set_remove(ses):
     w = world(); ex = upper_executor(w); sb = SymBuilder(w)
+    if not sb.layout_ok(False): ses.notes.append(LAYOUT_NOTE); ses.bounds['builder layout'] = 'unknown to the harness: bounded histories only'; return
     k = String('k'); val = Const('v', JV); kq = String('k_other')
     # set_claim
     st = new_state([Length(k) < 2**30]); cell = st.new_cell(sb.generic_value())
@@ -45,6 +46,7 @@ def job_set_remove(ses):
 
 def job_payload(ses):
     w = world(); ex = upper_executor(w); sb = SymBuilder(w); kq = String('k_any')
+    if not sb.layout_ok(False): ses.notes.append(LAYOUT_NOTE); ses.bounds['builder layout'] = 'unknown to the harness: bounded histories only'; return
     st = new_state([]); cell = st.new_cell(sb.generic_value())
     n = 0
     for s2, r in ex.run(w.fn(GB, 'build_payload_from_claims'), [('ref', cell, ())], st):
@@ -87,6 +89,7 @@ def job_wrap_value_step(ses):
 def job_typed_claim(ses, ty):
     """the crate's own claim types: constructor + get_key + Serialize executed from MIR, then GenericBuilder::set_claim"""
     w = world(); ex = upper_executor(w); sb = SymBuilder(w); file, ctor, key = CLAIMS[ty]
+    if not sb.layout_ok(False): ses.notes.append(LAYOUT_NOTE); ses.bounds['builder layout'] = 'unknown to the harness: bounded histories only'; return
     s_ = String('text'); st = new_state([Length(s_) < 2**30, um.iso8601_ok(s_)] if ctor == 'try_from' else [Length(s_) < 2**30])
     fs = [g for g in w.fns if g.file == file and g.method == ctor and '(_1: &str)' in g.sig and '{closure' not in g.name]
     if len(fs) != 1: raise Unsupported('%s::%s(&str): %d bodies' % (ty, ctor, len(fs)))
@@ -113,6 +116,7 @@ def job_typed_claim(ses, ty):
 def job_end_to_end(ses, proto):
     """GenericBuilder::try_encrypt/try_sign then GenericParser::parse without expectations: the JSON returned equals the stored claims"""
     w = world(); ex = upper_executor(w); sb = SymBuilder(w); p = PROTOCOLS[proto]
+    if not sb.layout_ok(False): ses.notes.append(LAYOUT_NOTE); ses.bounds['builder layout'] = 'unknown to the harness: bounded histories only'; return
     vt = w.type_text(proto); meth = 'try_encrypt' if p['p'] == 'Local' else 'try_sign'
     fs = [g for g in w.fns if g.file == GB and g.method == meth and g.impl and vt[0].split('::')[-1] in g.impl[1] and vt[1].split('::')[-1] in g.impl[1]]
     if len(fs) != 1: raise Unsupported('GenericBuilder::<%s>::%s: %d bodies' % (proto, meth, len(fs)))
